@@ -29,6 +29,7 @@ type lev struct {
 	round   int
 	wit     bool
 	stale   bool
+	opCreator int // the creator whose head was taken as other-parent (also when it had no event yet)
 }
 
 func (e *lev) has(x *lev) bool { return e.anc[x.id/64]&(1<<uint(x.id%64)) != 0 }
@@ -80,9 +81,14 @@ func stronglySeesLight(x, w *lev, n int) bool {
 }
 
 // extend returns the state after creator c creates an event on top of op.
-func (s *lstate) extend(rng *rand.Rand, n, c int, op *lev, stale bool) *lstate {
+func (s *lstate) extend(rng *rand.Rand, n, c int, op *lev, stale bool, opc ...int) *lstate {
 	sp := s.heads[c]
 	e := &lev{id: s.count, creator: c, sp: sp, op: op, anc: make([]uint64, levWords), la: make([]*lev, n), stale: stale}
+	if len(opc) > 0 {
+		e.opCreator = opc[0]
+	} else if op != nil {
+		e.opCreator = op.creator
+	}
 	for _, p := range []*lev{sp, op} {
 		if p == nil {
 			continue
@@ -253,6 +259,11 @@ func (s *lstate) extend(rng *rand.Rand, n, c int, op *lev, stale bool) *lstate {
 }
 
 var hideDeciders = true
+
+// coreLike: schedules a real core can follow — no separate first events (a creator's first event is
+// made by its first pull, with the other node's head as other-parent if it has one) and the
+// other-parent is always the other creator's latest event
+var coreLike = false
 var lagBonus = 0.0
 var minTargetRound = 0 // the fame of a round-0 witness rarely changes a block: mostly look at later rounds
 var advHidden *gEvent
@@ -261,8 +272,10 @@ var hideOnlyNo = true // only deciders of "not famous": after them the coin (alm
 // beamSearch returns the sequence of events of the best DAG found.
 func beamSearch(rng *rand.Rand, n, steps, width, target int) ([]*lev, int, []*lev) {
 	start := &lstate{heads: make([]*lev, n), wits: map[int][]*lev{}, frozen: -1}
-	for c := 0; c < n; c++ {
-		start = start.extend(rng, n, c, nil, false)
+	if !coreLike {
+		for c := 0; c < n; c++ {
+			start = start.extend(rng, n, c, nil, false)
+		}
 	}
 	beam := []*lstate{start}
 	var best *lstate = start
@@ -277,8 +290,11 @@ func beamSearch(rng *rand.Rand, n, steps, width, target int) ([]*lev, int, []*le
 					if n > 4 && rng.Intn(n) >= 4 {
 						continue
 					}
-					next = append(next, s.extend(rng, n, c, s.heads[o], false))
-					if s.heads[o].sp != nil && rng.Intn(6) == 0 {
+					if s.heads[o] == nil && !coreLike {
+						continue
+					}
+					next = append(next, s.extend(rng, n, c, s.heads[o], false, o))
+					if s.heads[o] != nil && s.heads[o].sp != nil && rng.Intn(6) == 0 && !coreLike {
 						next = append(next, s.extend(rng, n, c, s.heads[o].sp, true))
 					}
 				}
